@@ -68,7 +68,9 @@ UNITS = [
       "SUCCEED", "FAIL", "BADGROUP", ("FAIL_ATOM", "(uint32_t)(atom_t)FAIL"), ("UNSIGNED_BITS", "(sizeof(unsigned)*8)")],
      # initial contents of the static atom cache, read from the compiled initialisers (ids as uint32 bit patterns)
      [("atom_id_cache_init", "((uint32_t *)atom_id_cache)", "ATOM_CACHE_SIZE"),
-      ("atom_obj_cache_init", "((uintptr_t *)atom_obj_cache)", "ATOM_CACHE_SIZE")]),
+      ("atom_obj_cache_init", "((uintptr_t *)atom_obj_cache)", "ATOM_CACHE_SIZE"),
+      # static per-group id counters (they live outside the group records and survive HAdestroy_group/HAshutdown)
+      ("atom_next_id_init", "atom_next_id", "MAXGROUP")]),
     # C02 format reader: constants private to the special-element writers and record-layout limits
     ("Fmt", '#include "hdf_priv.h"\n#include "hfile_priv.h"\n#include "vg_priv.h"\n#include "hcomp_priv.h"\n#include "%s/hchunks.c"\n' % HS,
      ["_HDF_CHK_HDR_VER", "_HDF_CHK_TBL_CLASS_VER", "LIBVSTR_LEN", "VS_ATTR_SET", "VSET_OLD_TYPES",
